@@ -1,6 +1,6 @@
 (* PV.C08.Examples — non-vacuity: concrete non-trivial instances of every hypothesis / guard. *)
 From Coq Require Import List Bool Arith.
-From PV Require Import Base.PyData C08.Model C08.ProofsDomain.
+From PV Require Import Base.PyData C08.Model C08.ProofsDomain C08.Properties.
 Import ListNotations.
 
 (* first-order absorption, 2 peripherals, lag time, NONMEM-like environment *)
@@ -69,3 +69,12 @@ Example domain_nontrivial :
   /\ env_default AbsSeq (mkSk FO 0 2 EFO true true false false true false) = true
   /\ refines AbsSeq (mkSk FO 0 2 EFO true true false false true false) = true.
 Proof. repeat split; try (vm_compute; reflexivity); cbn; repeat constructor. Qed.
+
+(* setter_refines is used beyond every bound of the vm_compute closure: 40 transits, 25 peripherals *)
+Example all_counts_nontrivial :
+  refines_proved_for_all_counts ElMix = true /\ refines_proved_for_all_counts PerAdd = true
+  /\ refines_proved_for_all_counts (Transits 3 true) = false
+  /\ valid (mkSk SEQ 40 25 EZO true true true false true true) = true
+  /\ guard PerAdd (mkSk SEQ 40 25 EZO true true true false true true) = true
+  /\ guard ElMix (mkSk SEQ 40 25 EZO true true true false true true) = true.
+Proof. repeat split; vm_compute; reflexivity. Qed.
